@@ -86,9 +86,12 @@ fn make_archives(dir: &std::path::Path, seed: u64, thorough: bool) -> Vec<Archiv
             let mut a = base.clone();
             let mut b = base2.clone();
             if i > 0 {
-                let p = 30 + (i * 7) % 100;
-                a[p] = (a[p] + 1) & 3;
+                // all variants fall into the same (first) segment: one LZ group collects > 50 distinct deltas
+                // when there are > 51 samples, i.e. several delta packs of one group
+                let p = 12 + i % 23;
+                a[p] = (a[p] + 1 + ((i / 23) % 3) as u8) & 3;
                 if i % 3 == 0 { b[40] = (b[40] + 2) & 3; }
+                if i % 5 == 4 || i + 1 == n { a.drain(60..67); } // indel: segment layout differs between samples
             }
             let mut cs = vec![("chrA".to_string(), a), ("chrB".to_string(), b)];
             if i % 4 == 1 { cs.push(("orphan".to_string(), rng.bases(8))); }
@@ -180,6 +183,7 @@ pub fn run() -> i32 {
         let frontier: std::sync::Mutex<VecDeque<Vec<u8>>> = std::sync::Mutex::new(VecDeque::from(vec![vec![]]));
         let mut depth_max = 0usize;
         let mut edges = 0u64;
+        let mut capped_here = false;
         // level-synchronous BFS, each level expanded in parallel
         loop {
             let level: Vec<Vec<u8>> = frontier.lock().unwrap().drain(..).collect();
@@ -214,13 +218,13 @@ pub fn run() -> i32 {
             edges += res.len() as u64;
             let mut f = frontier.lock().unwrap();
             for (h2, key) in res {
-                if seen.len() >= max_states { capped = true; break; }
+                if seen.len() >= max_states { capped = true; capped_here = true; break; }
                 if !seen.contains_key(&key) {
                     seen.insert(key, h2.clone());
                     f.push_back(h2);
                 }
             }
-            if capped || rep.too_many_violations() { break; }
+            if capped_here || rep.too_many_violations() { break; }
         }
         // clones: parent in a reachable state, clone made from it; both orders of (op on parent, op on clone)
         let reps: Vec<Vec<u8>> = { let mut v: Vec<Vec<u8>> = seen.values().cloned().collect(); v.sort(); let step = (v.len() / if th { 200 } else { 40 }).max(1); v.into_iter().step_by(step).collect() };
@@ -254,7 +258,7 @@ pub fn run() -> i32 {
         clone_checks += cc.into_inner();
         states_total += seen.len() as u64;
         edges_total += edges;
-        per.push(json!({"archive": case.name, "ops": ops.len(), "states": seen.len(), "transitions": edges, "max_history_length": depth_max, "fixpoint_reached": !capped}));
+        per.push(json!({"archive": case.name, "ops": ops.len(), "states": seen.len(), "transitions": edges, "max_history_length": depth_max, "fixpoint_reached": !capped_here}));
         if rep.too_many_violations() { break; }
     }
     // free-running smoke test (labelled as such, never deciding): 4 clones extract concurrently
